@@ -444,6 +444,26 @@ def handleOps (op : String) (args : List String) (impl : Impl) : Option Ans :=
       | _ => "FAIL:decode"
     pure { model := "-", spec := sp, branch := "leap_table:" ++ which }
   -- ---------------------------------------------------------------- C12
+  | "ecmp_via", [how, _, _, _, _] => do
+    -- C12 on the RESULT of a stepping entry point, in whatever form it was left (raw parts as printed), against the freshly
+    -- constructed epoch of the same parts (moved by a few ns) and its re-expression in another scale: chronological
+    -- (spec only, by the instants of the operands as printed; the value of the result itself is C04's subject)
+    let grp (x : Ep) (z c rc e re : String) : Option (List (String × Bool)) := do
+      let z ← parseEp? z
+      let ix ← instOf x; let iz ← instOf z
+      if !(convFits x z.ts && convFits z x.ts) then pure [] else
+      let w := cmpInt ix iz
+      pure [("cmp", c == toString w), ("reverse_cmp", rc == toString (-w)), ("eq", e == bool01 (w == 0)), ("reverse_eq", re == bool01 (w == 0))]
+    let sp := match impl with
+      | .ok [x, z1, c1, r1, e1, q1, z2, c2, r2, e2, q2] =>
+        (match parseEp? x with
+         | some x => (match grp x z1 c1 r1 e1 q1, grp x z2 c2 r2 e2 q2 with
+            | some a, some b => verdict (a ++ b)
+            | _, _ => "FAIL:decode")
+         | none => "FAIL:decode")
+      | .other w => "FAIL:" ++ w
+      | _ => "FAIL:decode"
+    pure { model := "-", spec := sp, branch := "ecmp_via:" ++ how }
   | "ecmp_parts", [c, ns, b] => do
     -- C12 on an epoch built from RAW TAI parts (the nanosecond field may hold several centuries): comparisons answer the
     -- chronological question whatever way the operand was constructed (spec only; |c| <= 100, nothing saturates)
